@@ -50,5 +50,16 @@ HandleCount(d) ==
       opens == Cardinality({i \in 1..Len(RS) : RS[i].q.d = d /\ RS[i].q.op = "Open" /\ RS[i].res = "ok"})
       closes == Cardinality({i \in 1..Len(RS) : RS[i].q.d = d /\ RS[i].q.op \in {"Close", "Drop"} /\ RS[i].wasOpen})
   IN opens - closes
+\* the download policy through the actor (C15 / C16 at the level of the design): a read needs no open document and returns
+\* what the last acknowledged set put there since the document was last dropped, the default otherwise; a set is
+\* acknowledged exactly for a document that exists
+PolicyLaw ==
+  \A i \in 1..Len(replies) :
+     LET r == replies[i]
+         J == {j \in 1..(i - 1) : replies[j].q.d = r.q.d /\ replies[j].res = "ok" /\ replies[j].q.op \in {"SetPolicy", "Drop"}}
+         m == CHOOSE x \in J : \A j \in J : j <= x
+     IN r.q.op = "GetPolicy" =>
+          /\ r.res = "ok"
+          /\ r.val[1] = (IF J = {} \/ replies[m].q.op = "Drop" THEN DefaultPolicy ELSE replies[m].q.pol)
 CountsMatch == \A d \in Docs : (IF d \in DOMAIN ast.open THEN ast.open[d].handles ELSE 0) = HandleCount(d)
 =============================================================================
